@@ -70,6 +70,43 @@ func VerifC03Count(v *Voter, round *big.Int, idx uint32, vt VoteType, kind param
 	return c, true
 }
 
+// VerifC03Recorded reports whether addr has a vote recorded (addressVotes) in the
+// tally of (round, index, type, kind).
+func VerifC03Recorded(v *Voter, round *big.Int, idx uint32, vt VoteType, kind params.ValidatorKind, addr common.Address) bool {
+	v.lock.Lock()
+	defer v.lock.Unlock()
+	w := v.votesWrappers.GetWrapper(round, idx)
+	if w == nil {
+		return false
+	}
+	var m *VotesManager
+	if kind == params.KindChamber {
+		m = w.chamber
+	} else if kind == params.KindHouse {
+		m = w.house
+	}
+	if m == nil {
+		return false
+	}
+	var s *VoteSta
+	switch vt {
+	case Prevote:
+		s = m.prevotes
+	case Precommit:
+		s = m.precommits
+	case NextIndex:
+		s = m.nextIndexs
+	case Certificate:
+		s = m.certificates
+	}
+	if s == nil {
+		return false
+	}
+	s.lock.Lock()
+	defer s.lock.Unlock()
+	return s.addressVotes[addr] != nil
+}
+
 // VerifC03NewServer builds a Server holding only what verifySortition,
 // getLookbackStakeInfo and verifyVotes read.
 func VerifC03NewServer(chain consensus.ChainReader, yp *params.YouParams) *Server {
